@@ -77,9 +77,24 @@ func cmdEnum(args []string) {
 			return "hang"
 		}
 	}
+	type variant struct{ n, idx int; cmp string }
+	var vs []variant
 	for idx, n := range ns {
+		// every size with the default comparator and with a comparator under
+		// which the empty key is not the smallest (reverse order)
+		vs = append(vs, variant{n, idx, "bytes"}, variant{n, idx + 1, "rev"})
+	}
+	for _, v := range vs {
+		n, idx := v.n, v.idx
 		if poisoned {
 			break
+		}
+		var cmp gkvlite.KeyCompare
+		if v.cmp == "rev" {
+			cmp = reverseCompare
+			kid = func(k []byte) int { return n + 1 - int(binary.BigEndian.Uint32(k)) }
+		} else {
+			kid = func(k []byte) int { return int(binary.BigEndian.Uint32(k)) }
 		}
 		mode := []string{"mem", "file", "reopen"}[idx%3]
 		var store *gkvlite.Store
@@ -90,7 +105,7 @@ func cmdEnum(args []string) {
 			mf = memfile.New(1)
 			store, _ = gkvlite.NewStore(mf)
 		}
-		c := store.SetCollection("x", nil)
+		c := store.SetCollection("x", cmp)
 		perm := rng.Perm(n)
 		for _, p := range perm {
 			if err := c.SetItem(&gkvlite.Item{Key: key(p + 1), Val: []byte{byte(p)}, Priority: rng.Int31()}); err != nil {
@@ -109,6 +124,9 @@ func cmdEnum(args []string) {
 				fatalf("reopen: %v", err)
 			}
 			c = store.GetCollection("x")
+			if cmp != nil {
+				c = store.SetCollection("x", cmp)
+			}
 		}
 		st.Histories++
 		// Len
@@ -116,7 +134,7 @@ func cmdEnum(args []string) {
 			var l int64
 			var e error
 			pm := guard(func() { l, e = c.Len() })
-			emit(Ev{"e": "Enum", "api": "len", "n": n, "mode": mode, "mangler": "", "keys": []int{}, "len": l, "err": e != nil, "panic": pm != ""})
+			emit(Ev{"e": "Enum", "api": "len", "n": n, "mode": mode, "cmp": v.cmp, "mangler": "", "keys": []int{}, "len": l, "err": e != nil, "panic": pm != ""})
 			if pm != "" {
 				poisoned = true
 				continue
@@ -150,7 +168,7 @@ func cmdEnum(args []string) {
 					return true
 				})
 			})
-			emit(Ev{"e": "Enum", "api": "block", "n": n, "mode": mode, "mangler": mn, "keys": keys, "len": 0, "err": e != nil, "panic": pm != ""})
+			emit(Ev{"e": "Enum", "api": "block", "n": n, "mode": mode, "cmp": v.cmp, "mangler": mn, "keys": keys, "len": 0, "err": e != nil, "panic": pm != ""})
 			if pm != "" {
 				poisoned = true
 				break
@@ -165,7 +183,7 @@ func cmdEnum(args []string) {
 					return true
 				})
 			})
-			emit(Ev{"e": "Enum", "api": "random", "n": n, "mode": mode, "mangler": "", "keys": keys, "len": 0, "err": e != nil, "panic": pm != ""})
+			emit(Ev{"e": "Enum", "api": "random", "n": n, "mode": mode, "cmp": v.cmp, "mangler": "", "keys": keys, "len": 0, "err": e != nil, "panic": pm != ""})
 			if pm != "" {
 				poisoned = true
 			}
